@@ -448,6 +448,8 @@ fn c09_check_program(
     finish_binding(rep, c, what, v, mism);
     let mut sound = true;
     let mut seen_classes: Vec<Option<String>> = vec![];
+    // the encoder's mirror of this expression, built once, when the first witness needs it
+    let mut mirror: Option<Option<(Dfa, bool, bool)>> = None;
     for (i, (t, (cs, anc))) in ex.states.iter().enumerate() {
         if !(cs.is_canonical_end() && *anc && !automata::acc(&[dfa], t, 0)) {
             continue;
@@ -477,8 +479,23 @@ fn c09_check_program(
                 // the one the (recorded) encoder defines. A witness on which the implementation
                 // answers differently from the encoder's mirror comes from a changed language and
                 // is not attributed to them.
-                if class.is_some() && mirror_disagrees(asts, &[p.as_str(), q.as_str()], is_match) {
-                    class = None;
+                if class.is_some() && asts.len() == 1 {
+                    let m = mirror.get_or_insert_with(|| {
+                        let dev = refmodel::lang::Deviations { d1: true, d2: false, d3: false, d4: true };
+                        match refmodel::lang::reference(&asts[0], &dev) {
+                            refmodel::lang::Spec::Specified(r) => Dfa::new(&r.regex).ok().map(|d| (d, r.u2, r.u3)),
+                            _ => None,
+                        }
+                    });
+                    let disagrees = m.as_ref().map_or(false, |(d, u2, u3)| {
+                        [p.as_str(), q.as_str()].iter().any(|x| {
+                            let unjudged = (*u2 && x.starts_with('/')) || (*u3 && !x.starts_with('/')) || x.contains("//");
+                            !unjudged && d.accepts(x) != is_match(x)
+                        })
+                    });
+                    if disagrees {
+                        class = None;
+                    }
                 }
                 if seen_classes.contains(&class) {
                     continue;
